@@ -445,3 +445,12 @@ def lc(ctx):
 
 
 RULES.append(lc)
+
+
+@rule("P8", doc="a Full work-list request always recomputes the strong shape (shared with C12.O4)")
+def p8(ctx):
+    from . import c12
+    c12.o4(ctx)
+
+
+RULES.append(p8)
